@@ -71,6 +71,7 @@ let minn = ref (q_of_float 1e-3)
 let feps = ref 1e-10
 let feps2 = ref 1e-8
 
+let qsqrt_f0 (x : q) = sqrt (Float.max 0.0 (float_of_q x))
 let kv tok = match split '=' tok with [k; v] -> (k, v) | _ -> (tok, "")
 
 (* float magnitudes of the summed terms (tolerances only; never part of a decision) *)
@@ -282,6 +283,239 @@ let handle_reduce line =
     end
   end
 
+(* ==== REST stage: solve_without_inequality, make_strictly_feasible / make_x0 (C04_Rest_Defs) ================================== *)
+let eq_total = ref 0 and eq_dec = ref 0 and eq_amb = ref 0 and eq_nonfinite = ref 0 and eq_conv = ref 0 and eq_prop = ref 0
+let eq_worst_rel = ref 0.0
+let msf_total = ref 0 and msf_found = ref 0 and msf_amb = ref 0 and msf_bits = ref 0 and msf_trials = ref 0 and msf_sys_ok = ref 0
+let msf_sys_singular = ref 0 and msf_prop = ref 0 and msf_rounding = ref 0
+let ms_total = ref 0 and ms_started = ref 0 and ms_zero_start = ref 0 and ms_rejected = ref 0 and ms_strict_rejected = ref 0
+let ms_strict_total = ref 0 and ms_strict_nomsf = ref 0 and ms_amb = ref 0 and ms_feasible_rejected = ref 0 and ms_feasible_total = ref 0
+let msf_tab : (string, int * bool * float list * float list list * float list * bool * q list) Hashtbl.t = Hashtbl.create 64
+
+(* the decision of solve_without_inequality re-taken by the extracted model on the returned (x, v) *)
+let eq_decision id pn mufx dA qx qv (x : float list) (v : float list) (rdual : float list) (rprim : float list) status fAr fbr =
+  incr eq_total;
+  let fres = sqrt (List.fold_left (fun s t -> s +. t *. t) 0.0 (rdual @ rprim)) in
+  let valid = Float.is_finite fres in
+  let st = eq_solve pn mufx (q_of_float 10.0) !eps2 { ea_x = qx; ea_v = qv; ea_valid = valid } in
+  let lm = eq_lmat pn and lv = eq_lvec pn in
+  let sol = qx @ qv in
+  let lhs = mv lm sol in
+  let r = qsqrt_f0 (sumsq (eq_sys_residual pn qx qv)) in
+  let thr = !feps2 *. sqrt (Float.min (Float.max 0.0 (float_of_q (sumsq lhs))) (Float.max 0.0 (float_of_q (sumsq lv)))) in
+  (* the implementation forms lmat * lsol in doubles: rounding of a row is bounded by (n + p) ulp of its summed magnitudes *)
+  let fsol = List.map float_of_q sol in
+  let rowmag = List.map (fun row -> List.fold_left2 (fun s a b -> s +. fabs (float_of_q a) *. fabs b) 0.0 row fsol) lm in
+  let rnd = float_of_int (List.length sol + 2) *. 0x1p-52 *. sqrt (List.fold_left (fun s t -> s +. t *. t) 0.0 rowmag) in
+  if thr > 0.0 && r /. thr > !eq_worst_rel && status = 1 then eq_worst_rel := r /. thr;
+  if valid && fabs (r -. thr) <= 4.0 *. rnd +. 1e-6 *. thr then incr eq_amb
+  else begin
+    incr eq_dec;
+    if B.int_of_big_int st.es_status <> status then
+      report "MISMATCH" "eq-status" id (Printf.sprintf "model=%d impl=%d valid=%b aprox(model)=%b |lmat*lsol - lvec|=%g eps2*min(|lmat*lsol|,|lvec|)=%g rounding=%g"
+                                          (B.int_of_big_int st.es_status) status valid st.es_aprox r thr rnd)
+  end;
+  (* direct oracle (own arithmetic, Zarith Q): what C04_eq_converged_rprim_bound states about a `converged` answer *)
+  if status = 1 then begin
+    incr eq_conv;
+    let zx = Array.of_list (List.map Q.of_float x) in
+    let zd = Q.of_float dA in
+    let rp2 = List.fold_left2 (fun s row rhs ->
+        let t = ref (Q.neg (Q.of_float rhs)) in
+        List.iteri (fun j a -> t := Q.add !t (Q.mul (Q.of_float a) zx.(j))) row;
+        let t = Q.div !t zd in Q.add s (Q.mul t t)) Q.zero fAr fbr in
+    let cb2 = Q.to_float (Q.make (sumsq lv).qnum (sumsq lv).qden) in
+    let bound = !feps2 *. !feps2 *. cb2 in
+    let frp = sqrt (Q.to_float rp2) in
+    if frp > 1.001 *. sqrt bound +. 4.0 *. rnd then begin
+      incr eq_prop;
+      report "PROPFAIL" "eq-rprim-bound" id (Printf.sprintf "converged with |A'x - b'|_2 = %g > epsilon2 * |(c', b')|_2 = %g (normalised program)" frp (sqrt bound))
+    end
+  end
+
+(* small dyadics (multiples of 2^-8 up to 4096): a row g.x - h of at most 12 such terms is evaluated exactly in doubles in any order *)
+let small_dyadic t = Float.is_finite t && fabs t <= 4096.0 && Float.of_int (Float.to_int (t *. 256.0)) = t *. 256.0
+let exactly_evaluable (fG : float list list) (fh : float list) (x : float list) =
+  List.length x <= 12 && List.for_all small_dyadic x && List.for_all small_dyadic fh && List.for_all (List.for_all small_dyadic) fG
+
+let zrow_slack (g : float list) (h : float) (zx : Q.t array) =
+  let t = ref (Q.neg (Q.of_float h)) in List.iteri (fun j a -> t := Q.add !t (Q.mul (Q.of_float a) zx.(j))) g; !t
+
+let handle_msf line =
+  let lp = Array.of_list (split_str " | " line) in
+  if Array.length lp < 5 then failwith "bad MSF line";
+  let toks = split ' ' (String.trim lp.(0)) in
+  let id = List.nth toks 1 in
+  let hdr = List.map kv toks in
+  let n = int_of_string (List.assoc "n" hdr) and m = int_of_string (List.assoc "m" hdr) and ret = int_of_string (List.assoc "ret" hdr) = 1 in
+  let strict_known = int_of_string (List.assoc "strict_known" hdr) = 1 in
+  let fG = fmat lp.(1) and fh = fvec lp.(2) and xret = fvec lp.(3) in
+  let trials = let t = String.trim lp.(4) in if t = "-" || t = "" then [] else
+      List.map (fun tr -> match split ':' tr with [y; x] -> (parse_float y, fvec x) | _ -> failwith "bad MSF trial") (split ';' t) in
+  if List.length fG <> m || List.length fh <> m || List.exists (fun r -> List.length r <> n) fG || List.exists (fun (_, x) -> List.length x <> n) trials then failwith "bad MSF sizes";
+  incr msf_total;
+  if ret then incr msf_found;
+  msf_trials := !msf_trials + List.length trials;
+  let qG = qmat fG and qh = qvec fh in
+  let finite = List.for_all (fun (y, x) -> Float.is_finite y && finite_vec x) trials && finite_vec xret in
+  let rounds_q = ref [] in
+  let decided = ref false in
+  if not finite then incr msf_amb
+  else begin
+    (* (a) the distances: bit-exact mirror of `ym = 1.0; yM = 1.0 / gamma; ym *= gamma; yM /= gamma` in evaluation order *)
+    let gamma = 0.3 in
+    let ym = ref 1.0 and yM = ref (1.0 /. gamma) in
+    List.iteri (fun k (y, _) ->
+        let e = if k mod 2 = 0 then !ym else !yM in
+        if Int64.bits_of_float e <> Int64.bits_of_float y then report "MISMATCH" "msf-distance" id (Printf.sprintf "trial %d: y=%h, expected %h" k y e);
+        if k mod 2 = 1 then begin ym := !ym *. gamma; yM := !yM /. gamma end) trials;
+    (* (b) every answer solves its normal equations (G'G) x = G'(h - y 1): norm-wise 1e-9, required when G'G is regular (exact LDL') *)
+    let gm = gram (nat_of_int n) qG in
+    let regular =
+      let k = Array.of_list (List.map (fun row -> Array.of_list (List.map zq row)) gm) in
+      let ok = ref (Array.length k = n) in
+      if !ok then begin
+        let dmax = ref 0.0 in
+        Array.iter (fun row -> Array.iter (fun t -> dmax := Float.max !dmax (fabs (Q.to_float t))) row) k;
+        (try for c = 0 to n - 1 do
+             let d = k.(c).(c) in
+             if not (Q.to_float d > 1e-6 *. !dmax) then begin ok := false; raise Exit end;
+             for i = c + 1 to n - 1 do
+               let f = Q.div k.(i).(c) d in
+               if Q.sign f <> 0 then for j = c to n - 1 do k.(i).(j) <- Q.sub k.(i).(j) (Q.mul f k.(c).(j)) done
+             done
+           done with Exit -> ())
+      end; !ok in
+    let ambiguous = ref false in
+    let accept_exact (x : float list) =
+      (* exact sign of max(G x - h); rounding level: within 2^-44 of the row's summed terms *)
+      let zx = Array.of_list (List.map Q.of_float x) in
+      let worst = ref (Q.of_int (-1)) and first = ref true and near = ref false in
+      List.iter2 (fun g h -> let t = zrow_slack g h zx in
+                   if !first || Q.gt t !worst then begin worst := t; first := false end;
+                   if fabs (Q.to_float t) <= 0x1p-44 *. (fdot_abs g x +. fabs h) && not (exactly_evaluable fG fh x) then near := true) fG fh;
+      (Q.sign !worst < 0, !near) in
+    List.iter (fun (y, x) ->
+        let res = msf_residual (nat_of_int n) qG qh (q_of_float y) (qvec x) in
+        let rhs_mag = List.fold_left (fun s row -> Float.max s (List.fold_left2 (fun s a b -> s +. fabs (float_of_q a) *. fabs b) 0.0 row x)) 0.0 gm in
+        let gt_mag = List.fold_left2 (fun s g h -> s +. (List.fold_left (fun s a -> Float.max s (fabs a)) 0.0 g) *. (fabs h +. fabs y)) 0.0 fG fh in
+        let scale = rhs_mag +. gt_mag +. 1e-300 in
+        let ratio = List.fold_left (fun s t -> Float.max s (fabs (float_of_q t) /. scale)) 0.0 res in
+        if ratio <= 1e-9 then incr msf_sys_ok
+        else if regular then report "MISMATCH" "msf-system" id (Printf.sprintf "the candidate for y=%h does not solve (G'G) x = G'(h - y 1): relative residual %g (G'G regular)" y ratio)
+        else incr msf_sys_singular;
+        let (_, near) = accept_exact x in if near then ambiguous := true) trials;
+    (* (c) the model's loop on the recorded answers *)
+    let rec group = function
+      | (ya, xa) :: (yb, xb) :: rest -> { r_ym = q_of_float ya; r_xm = qvec xa; r_yM = q_of_float yb; r_xM = qvec xb } :: group rest
+      | [(ya, xa)] -> [{ r_ym = q_of_float ya; r_xm = qvec xa; r_yM = q_of_float ya; r_xM = qvec xa }]
+      | [] -> [] in
+    let rounds = group trials in
+    rounds_q := rounds;
+    let rm = msf_run qG qh rounds in
+    if !ambiguous then incr msf_amb
+    else begin
+      decided := true;
+      (match rm, ret with
+       | None, false ->
+         if List.length trials <> 100 then report "MISMATCH" "msf-trial-count" id (Printf.sprintf "nothing returned after %d evaluated trials (100 expected)" (List.length trials))
+       | Some xm, true ->
+         let fm = List.map float_of_q xm in
+         if List.length fm = List.length xret && List.for_all2 (fun a b -> Int64.bits_of_float a = Int64.bits_of_float b) fm xret then incr msf_bits
+         else if List.length fm = List.length xret && List.for_all2 (fun a b -> fabs (a -. b) <= 1e-9 *. (fabs a +. fabs b) +. 1e-300) fm xret then ()
+         else report "MISMATCH" "msf-result" id (Printf.sprintf "the library returns (%s), the model's loop on the recomputed candidates returns (%s)"
+                                                   (String.concat "," (List.map (Printf.sprintf "%h") xret)) (String.concat "," (List.map (Printf.sprintf "%h") fm)));
+         (match List.rev trials with
+          | (_, xl) :: _ -> if xl <> fm then report "MISMATCH" "msf-short-circuit" id "the accepted candidate is not the last evaluated trial"
+          | [] -> ())
+       | None, true -> report "MISMATCH" "msf-result" id "the library returns a point, the model's loop on the recomputed candidates returns nothing"
+       | Some _, false -> report "MISMATCH" "msf-result" id "the library returns nothing, the model's loop on the recomputed candidates accepts one")
+    end;
+    (* (d) direct oracles on the returned point (own arithmetic): strictly inside every inequality; a least-squares candidate for
+       one of the distances of the sequence *)
+    if ret then begin
+      let (strict, near) = accept_exact xret in
+      if not strict then begin
+        if near then incr msf_rounding
+        else begin incr msf_prop; report "PROPFAIL" "msf-not-strict" id (Printf.sprintf "the returned point (%s) does not satisfy G x < h" (String.concat "," (List.map (Printf.sprintf "%h") xret))) end
+      end;
+      if regular then begin
+        let zx = Array.of_list (List.map Q.of_float xret) in
+        let slack = List.map2 (fun g h -> zrow_slack g h zx) fG fh in
+        (* the candidate is a double vector: its slacks carry the rounding of x, |g_i| |x| ulp; for tiny distances y that is all there is *)
+        let sterms = List.map2 (fun g h -> 0x1p-26 *. (fdot_abs g xret +. fabs h)) fG fh in
+        let best = ref infinity in
+        let ym = ref 1.0 and yM = ref (1.0 /. gamma) in
+        for _ = 1 to 50 do
+          List.iter (fun y ->
+              (* G' (G x - h + y 1), norm-wise against the summed magnitudes *)
+              let zy = Q.of_float y in
+              let worst = ref 0.0 and mag = ref 1e-300 in
+              for j = 0 to n - 1 do
+                let t = ref Q.zero and mg = ref 0.0 in
+                List.iter2 (fun (g, st) sl -> let a = List.nth g j in
+                             t := Q.add !t (Q.mul (Q.of_float a) (Q.add sl zy));
+                             mg := !mg +. fabs a *. (fabs (Q.to_float sl) +. fabs y +. st)) (List.combine fG sterms) slack;
+                worst := Float.max !worst (fabs (Q.to_float !t)); mag := Float.max !mag !mg
+              done;
+              best := Float.min !best (!worst /. !mag)) [!ym; !yM];
+          ym := !ym *. gamma; yM := !yM /. gamma
+        done;
+        if !best > 1e-7 then begin incr msf_prop; report "PROPFAIL" "msf-not-least-squares" id (Printf.sprintf "the returned point solves G'(G x - h + y 1) = 0 for no distance y of the sequence (best relative residual %g)" !best) end
+      end
+    end
+  end;
+  (* the default start: the model's (make_x0 of the model's loop) unless an acceptance test was within rounding of zero or the state was
+     not finite -- then make_x0 of what the library returned *)
+  let x0m = if !decided then default_x0 { pQ = []; pc = List.init n (fun _ -> qz); pA = []; pb = []; pG = qG; ph = qh } !rounds_q
+    else make_x0 (nat_of_int n) (if ret then Some (qvec xret) else None) in
+  Hashtbl.replace msf_tab id (n, ret, xret, fG, fh, strict_known, x0m)
+
+let handle_mstart line =
+  let lp = Array.of_list (split_str " | " line) in
+  if Array.length lp < 2 then failwith "bad MSTART line";
+  let toks = split ' ' (String.trim lp.(0)) in
+  let id = List.nth toks 1 in
+  let hdr = List.map kv toks in
+  let geti k = int_of_string (List.assoc k hdr) in
+  let expect = geti "expect" and status = geti "status" and iters = geti "iters" and started = geti "started" = 1 in
+  let x0ev = fvec lp.(1) in
+  let (n, ret, xret, fG, fh, strict_known, x0m) = try Hashtbl.find msf_tab id with Not_found -> failwith "MSTART without MSF" in
+  Hashtbl.remove msf_tab id;
+  incr ms_total;
+  let fx0m = List.map float_of_q x0m in
+  let feasible_known = strict_known || expect = 1 in
+  if strict_known then begin incr ms_strict_total; if not ret then incr ms_strict_nomsf end;
+  if feasible_known then incr ms_feasible_total;
+  let exact_max (x : float list) =
+    let zx = Array.of_list (List.map Q.of_float x) in
+    let worst = ref Q.zero and first = ref true and near = ref false in
+    List.iter2 (fun g h -> let t = zrow_slack g h zx in
+                 if !first || Q.gt t !worst then begin worst := t; first := false end;
+                 (* G x - h is evaluated exactly in doubles at the zero vector: no ambiguity there *)
+                 if List.exists (fun t -> t <> 0.0) x && not (exactly_evaluable fG fh x) && fabs (Q.to_float t) <= 0x1p-40 *. (fdot_abs g x +. fabs h) then near := true) fG fh;
+    (Q.sign !worst, !near) in
+  if List.length fx0m <> n then report "MISMATCH" "make-x0-size" id (Printf.sprintf "model x0 has %d entries, n=%d" (List.length fx0m) n)
+  else if started then begin
+    incr ms_started;
+    if not ret then incr ms_zero_start;
+    (* the point make_x0 handed to solve_with_inequality: the returned candidate or the zero vector, bit for bit *)
+    if not (List.length x0ev = n && List.for_all2 (fun a b -> Int64.bits_of_float a = Int64.bits_of_float b || (a = 0.0 && b = 0.0)) x0ev fx0m) then
+      report "MISMATCH" "make-x0" id (Printf.sprintf "ev_program_start carries x0=(%s), the model's default start is (%s) (make_strictly_feasible returned %s)"
+                                        (String.concat "," (List.map (Printf.sprintf "%h") x0ev)) (String.concat "," (List.map (Printf.sprintf "%h") fx0m)) (if ret then "a point" else "nothing"));
+    let (sg, near) = exact_max x0ev in
+    if sg >= 0 && not near then begin incr msf_prop; report "PROPFAIL" "start-not-strict" id "the loop was entered from a point with max(G x0 - h) >= 0" end
+  end else begin
+    incr ms_rejected;
+    if strict_known then incr ms_strict_rejected;
+    if feasible_known then incr ms_feasible_rejected;
+    if not (status = 3 && iters = 0) then report "MISMATCH" "start-rejected-status" id (Printf.sprintf "no iteration was started but status=%d iters=%d" status iters);
+    let (sg, near) = exact_max fx0m in
+    if near then incr ms_amb
+    else if sg < 0 then report "MISMATCH" "default-start-decision" id (Printf.sprintf "the model's default start (%s) is strictly feasible but the loop was not entered" (String.concat "," (List.map (Printf.sprintf "%h") fx0m)))
+  end;
+  ignore xret
+
 let handle_solve line =
   match split_str " = " line with
   | [lhs; rhs] ->
@@ -337,6 +571,13 @@ let handle_solve line =
           report "MISMATCH" "start-decision" id (Printf.sprintf "model: start_unfeasible=%b (max(Gx0-h)=%g) impl status=%d with undefined multipliers" dec mg status)
       end
     end
+    else if m = 0 && not all_finite then begin
+      (* solve_without_inequality with a non-finite answer: `valid` is false, the model says failed *)
+      incr eq_total; incr eq_nonfinite;
+      let st = eq_solve pn (q_of_float dQ) (q_of_float 10.0) !eps2 { ea_x = []; ea_v = []; ea_valid = false } in
+      if B.int_of_big_int st.es_status <> status then
+        report "MISMATCH" "eq-status" id (Printf.sprintf "non-finite state: model=%d impl=%d" (B.int_of_big_int st.es_status) status)
+    end
     else if all_finite && List.length x = n && List.length u = m && List.length v = p then begin
       let qx = qvec x and qu = qvec u and qv = qvec v in
       if B.int_of_big_int (sysdim pn) <> List.length x + List.length v then
@@ -376,6 +617,7 @@ let handle_solve line =
       end;
       if !stale_now then incr stale;
       gating := true;
+      if m = 0 then eq_decision id pn (q_of_float dQ) dA qx qv x v rdual rprim status fAr fbr;
       (* the decision of done(), re-taken on the reported numbers (inequality path only; a state with defined
          multipliers and one of the three statuses done() assigns) *)
       if m > 0 && (status = 1 || status = 3 || status = 4) then begin
@@ -404,7 +646,12 @@ let handle_solve line =
         (* rows whose deviation is below 2^-44 of their own terms are the defect candidate `converged at a huge point`
            (the harness prints the CAND line), not a failure of the feasibility logic *)
         let r44 = { qnum = B.unit_big_int; qden = B.shift_left_big_int B.unit_big_int 44 } in
-        let okrow tol row rhs dev = qle dev tol || qle dev (r44 */ q_of_float (fdot_abs row x +. fabs rhs)) in
+        (* equality-only path: the deviation is within what the code's own acceptance test allows, |A'x - b'|_2 <= epsilon2 |(c', b')|_2 on
+           the rows divided by dA (C04_eq_converged_rprim_bound; checked separately as PROPFAIL eq-rprim-bound): defect candidate
+           `equality-tolerance-vs-row-scale` (the harness prints the CAND line) *)
+        let nrm2 l = sqrt (List.fold_left (fun s t -> s +. t *. t) 0.0 l) in
+        let solve_scale = if m = 0 then q_of_float (1.001 *. !feps2 *. dA *. sqrt ((nrm2 fc /. dQ) ** 2.0 +. (nrm2 fbr /. dA) ** 2.0)) else qz in
+        let okrow tol row rhs dev = qle dev tol || qle dev (r44 */ q_of_float (fdot_abs row x +. fabs rhs)) || (m = 0 && qle dev solve_scale) in
         let rec all3 f a b c = match a, b, c with x :: a, y :: b, z :: c -> f x y z && all3 f a b c | _ -> true in
         let okA = all3 (fun row rhs t -> okrow ta row rhs (qabs t)) fA fb (vsub (mv user.pA qx) user.pb)
         and okG = all3 (fun row rhs t -> okrow tg row rhs t) fG fh (vsub (mv user.pG qx) user.ph) in
@@ -426,6 +673,7 @@ let it_rounding_feas = ref 0 and it_reverted = ref 0 and it_stale3 = ref 0 and i
 let it_worst_sys = ref 0.0
 let it_sys_regular = ref 0
 let it_rejected = ref 0 and it_underflow = ref 0 and it_boundary = ref 0 and it_budget = ref 0
+let it_lu_checked = ref 0 and it_lu_bad = ref 0 and cur_lu_bad = ref false and it_conv_after_bad = ref 0 and it_conv_checked = ref 0
 let it_exits = Array.make 6 0
 let it_amb_kinds = Hashtbl.create 8
 let amb what = incr it_ambig; Hashtbl.replace it_amb_kinds what (1 + (try Hashtbl.find it_amb_kinds what with Not_found -> 0))
@@ -489,7 +737,7 @@ let handle_iprog line =
   cur_prog := Some { ip_id = id; ip_n = n; ip_m = m; ip_p = p; ip_prog = prog; ip_mufx = q_of_float mufx; ip_maxls = geti "maxls"; ip_maxit = geti "maxit";
                      ip_eps = getf "eps"; ip_eps0 = getf "eps0"; ip_Q = arr2 fQ; ip_c = Array.of_list fc; ip_A = arr2 fA; ip_b = Array.of_list fb;
                      ip_G = arr2 fG; ip_h = Array.of_list fh; ip_x0 = fx0 };
-  prev_eta := None; prev_status := 0; last_event := None
+  prev_eta := None; prev_status := 0; last_event := None; cur_lu_bad := false
 
 let mk_par ip miu alpha beta s0 =
   { p_s0 = q_of_float s0; p_miu = q_of_float miu; p_alpha = q_of_float alpha; p_beta = q_of_float beta; p_eps = q_of_float ip.ip_eps;
@@ -639,7 +887,11 @@ let handle_iter line =
       let sys_ratio = ref 0.0 in
       if List.length sres <> n + p then mism "system-size" (Printf.sprintf "model %d rows, n+p=%d" (List.length sres) (n + p))
       else List.iteri (fun i t -> let r = fabs (float_of_q t) /. (scale +. 1e-300) in if r > !sys_ratio then sys_ratio := r) sres;
-      let sys_ok = !sys_ratio <= 1e-9 in
+      (* [lu_ok_b] of C04_Rest_Defs (the checked hypothesis of the contraction theorems): every entry of lmat (dx, dv) - lvec within 1e-9 of
+         the largest row magnitude *)
+      let sys_ok = List.length sres = n + p && lu_ok_b prog qx qu qrd qrc qrp qdx qdv (q_of_float (1e-9 *. (scale +. 1e-300))) in
+      incr it_lu_checked;
+      if not sys_ok then begin incr it_lu_bad; cur_lu_bad := true end;
       (* Eigen's LDLT pivots on the original diagonal and is only reliable here when the block Q - hessvar is positive definite
          (a variable in no inequality row and without curvature gives a zero pivot: the factorisation fails, info() is not
          looked at by the solver): the block is factorised exactly (LDL' over Q, own code); a regular system must be solved *)
@@ -879,6 +1131,22 @@ let handle_ifinal line =
   let eta = parse_float (List.nth toks 5) in
   let x = fvec lp.(1) and u = fvec lp.(2) and v = fvec lp.(3) and rd = fvec lp.(4) and rp = fvec lp.(5) and rc = fvec lp.(6) in
   incr it_final;
+  (* C04_ldlt_failure_never_false_converged on the implementation (own arithmetic): a `converged` state is feasible for the program as
+     solved, |A x - b|_2 < epsilon2 and max(G x - h) < epsilon2, whatever the directions were (also after passes violating lu_ok) *)
+  if status = 1 && finite_vec x && List.length x = ip.ip_n then begin
+    incr it_conv_checked;
+    if !cur_lu_bad then incr it_conv_after_bad;
+    let zx = zq_vec x and ax = Array.of_list x in
+    let s2 = ref Q.zero and mag2 = ref 0.0 in
+    Array.iteri (fun l row -> let t = Q.sub (zdot (Array.map Q.of_float row) zx) (Q.of_float ip.ip_b.(l)) in
+                  s2 := Q.add !s2 (Q.mul t t); let mg = row_mag row ax +. fabs ip.ip_b.(l) in mag2 := !mag2 +. mg *. mg) ip.ip_A;
+    let neq = sqrt (Q.to_float !s2) in
+    if ip.ip_p > 0 && neq > !feps2 *. 1.001 +. 1e-12 *. sqrt !mag2 then
+      report "PROPFAIL" "iter-converged-infeasible" id (Printf.sprintf "status=converged with |A x - b|_2 = %g >= epsilon2 (program as solved)%s" neq (if !cur_lu_bad then " after a pass violating lu_ok" else ""));
+    Array.iteri (fun k row -> let t = Q.to_float (Q.sub (zdot (Array.map Q.of_float row) zx) (Q.of_float ip.ip_h.(k))) in
+                  if t > !feps2 *. 1.001 +. 1e-12 *. (row_mag row ax +. fabs ip.ip_h.(k)) then
+                    report "PROPFAIL" "iter-converged-infeasible" id (Printf.sprintf "status=converged with (G x - h)[%d] = %g >= epsilon2 (program as solved)%s" k t (if !cur_lu_bad then " after a pass violating lu_ok" else ""))) ip.ip_G
+  end;
   (match !last_event with
    | None -> ()
    | Some (exitk, x', u', v', eta', status', res_m) ->
@@ -933,6 +1201,12 @@ let () =
           | Failure m -> report "MISMATCH" "driver-error" "?" (m ^ " :: " ^ String.sub line 0 (min 80 (String.length line)))
           | Invalid_argument m -> report "MISMATCH" "driver-error" "?" (m ^ " :: " ^ String.sub line 0 (min 80 (String.length line)))
           | Not_found -> report "MISMATCH" "driver-error" "?" ("Not_found :: " ^ String.sub line 0 (min 80 (String.length line))))
+       else if String.length line > 7 && (String.sub line 0 4 = "MSF " || String.sub line 0 7 = "MSTART ") then
+         (let h = if String.sub line 0 4 = "MSF " then handle_msf else handle_mstart in
+          try h line with
+          | Failure m -> report "MISMATCH" "driver-error" "?" (m ^ " :: " ^ String.sub line 0 (min 80 (String.length line)))
+          | Invalid_argument m -> report "MISMATCH" "driver-error" "?" (m ^ " :: " ^ String.sub line 0 (min 80 (String.length line)))
+          | Not_found -> report "MISMATCH" "driver-error" "?" ("Not_found :: " ^ String.sub line 0 (min 80 (String.length line))))
        else if String.length line > 7 && String.sub line 0 7 = "REDUCE " then
          (try handle_reduce line with
           | Failure m -> report "MISMATCH" "driver-error" "?" (m ^ " :: " ^ String.sub line 0 (min 80 (String.length line)))
@@ -944,10 +1218,14 @@ let () =
   Printf.printf "MODEL-DONE checked=%d mismatches=%d compared=%d decisions=%d ambiguous=%d kkt_verified=%d stale_states=%d converged_with_negative_u=%d returned_states_u_checked=%d reduce_systems_checked=%d reduce_exact_factorisations=%d reduce_rows_removed=%d reduce_full_rank=%d reduce_empty=%d reduce_inconsistent=%d reduce_exact_rowspace=%d reduce_ranks=%s\n"
     !total !mism !compared !decisions !ambiguous !kkt_ok !stale !neg_u !u_checked !red_total !red_exact !red_reduced !red_full !red_empty !red_incons !red_exact_rowspace
     (if ranks = "" then "-" else ranks);
+  if !eq_total > 0 || !msf_total > 0 then
+    Printf.printf "REST-DONE eq_states=%d eq_status_decisions=%d eq_ambiguous=%d eq_nonfinite=%d eq_converged=%d eq_worst_residual_over_threshold=%g msf_calls=%d msf_found=%d msf_trials=%d msf_systems_solved=%d msf_systems_singular=%d msf_ambiguous=%d msf_bit_exact_results=%d msf_rounding_level=%d rest_propfails=%d default_starts=%d started=%d started_from_zero=%d rejected_without_iteration=%d start_ambiguous=%d strictly_feasible_known=%d strictly_feasible_known_msf_nothing=%d strictly_feasible_known_rejected=%d feasible_known=%d feasible_known_rejected=%d\n"
+      !eq_total !eq_dec !eq_amb !eq_nonfinite !eq_conv !eq_worst_rel !msf_total !msf_found !msf_trials !msf_sys_ok !msf_sys_singular !msf_amb !msf_bits !msf_rounding
+      (!eq_prop + !msf_prop) !ms_total !ms_started !ms_zero_start !ms_rejected !ms_amb !ms_strict_total !ms_strict_nomsf !ms_strict_rejected !ms_feasible_total !ms_feasible_rejected;
   if !it_solves > 0 || !it_events > 0 then begin
     let ambk = String.concat "," (List.sort compare (Hashtbl.fold (fun k v acc -> Printf.sprintf "%s:%d" k v :: acc) it_amb_kinds [])) in
-    Printf.printf "ITER-DONE solves=%d events=%d mismatches=%d systems_solved=%d systems_inaccurate_singular_block=%d systems_regular=%d worst_system_ratio=%g full_passes_compared=%d exact_stage_counts=%d bit_exact_mirrors=%d status_decisions=%d ambiguous=%d ambiguous_kinds=%s skipped=%d starts_rejected=%d underflow_events=%d boundary_events=%d over_budget_events=%d propfails=%d strict_feasibility_at_rounding=%d stage2_exhausted_reverted=%d stage2_exhausted_stale=%d starts=%d finals=%d exits=%s\n"
+    Printf.printf "ITER-DONE solves=%d events=%d mismatches=%d systems_solved=%d systems_inaccurate_singular_block=%d systems_regular=%d worst_system_ratio=%g full_passes_compared=%d exact_stage_counts=%d bit_exact_mirrors=%d status_decisions=%d ambiguous=%d ambiguous_kinds=%s skipped=%d starts_rejected=%d underflow_events=%d boundary_events=%d over_budget_events=%d propfails=%d strict_feasibility_at_rounding=%d stage2_exhausted_reverted=%d stage2_exhausted_stale=%d starts=%d finals=%d lu_ok_checked=%d lu_ok_violations=%d converged_after_lu_ok_violation=%d converged_finals_checked=%d exits=%s\n"
       !it_solves !it_events !mism !it_sys_ok !it_sys_bad !it_sys_regular !it_worst_sys !it_full !it_exact_counts !it_bits !it_status_dec !it_ambig (if ambk = "" then "-" else ambk) !it_skipped !it_rejected !it_underflow !it_boundary !it_budget !it_prop
-      !it_rounding_feas !it_reverted !it_stale3 !it_start !it_final
+      !it_rounding_feas !it_reverted !it_stale3 !it_start !it_final !it_lu_checked !it_lu_bad !it_conv_after_bad !it_conv_checked
       (String.concat "," (Array.to_list (Array.mapi (fun i c -> Printf.sprintf "%d:%d" i c) it_exits)))
   end
